@@ -324,6 +324,13 @@ func (t *simTransport) RoundTrip(req *http.Request) (*http.Response, error) {
 	k := t.k
 	call, _ := req.Context().Value(callKey).(*CallState)
 	if call == nil {
+		// generated code that does not pass the caller's context on: the request still belongs to
+		// the call whose task is running (one task runs at a time), and it travels without the
+		// caller's deadline and cancellation, exactly as it would in production
+		call = k.curCall
+		k.Stats.Probe("request_without_caller_context")
+	}
+	if call == nil {
 		return nil, errors.New("sim: request without call id")
 	}
 	if err := req.Context().Err(); err != nil {
